@@ -181,6 +181,7 @@ func runOne(t *testing.T, e *Env, prop, group string, i int, fn func(c *Case) Re
 	e.Emit(map[string]any{"t": "case_begin", "prop": prop, "group": group, "case": i})
 	start := time.Now()
 	var res Result
+	leaksBefore := BubbleLeaks.Load()
 	func() {
 		defer func() {
 			if r := recover(); r != nil {
@@ -191,6 +192,9 @@ func runOne(t *testing.T, e *Env, prop, group string, i int, fn func(c *Case) Re
 	}()
 	if c.Frozen != "" {
 		res = Result{Inconclusive: c.Frozen}
+	}
+	if d := BubbleLeaks.Load() - leaksBefore; d > 0 {
+		res.Count("bubbles_left_goroutines_behind_at_teardown", d)
 	}
 	verdict := "held"
 	if res.Inconclusive != "" {
